@@ -115,8 +115,8 @@ def group_segment_can_be_empty(pp):
 def gtw_seq(toks):
     if not toks or not toks[0].startswith('x'):
         return False
-    if any(u[0] in 'sqbx' for u in toks[1:]):
-        return True
+    if any(u[0] in 'sqbx' or u in ('l2e', 'e2e') for u in toks[1:]):
+        return True      # (a written dot after the group is left unguarded in the same way: `*(a)\.` accepts the entry `.`)
     # the same shape inside an alternative of the leading group
     inner = toks[0][3:-1]
     return any(gtw_seq(split_top(alt, '.')) for alt in split_top(inner, ';'))
@@ -384,4 +384,30 @@ def spelling_equiv(ctx, rng, ntrees=3, npats=30):
                             ctx.counterexample('globmatch(.., %r, %s|REALPATH) accepts %r but for %r, the same pattern with every separator written once, %r' % (
                                 v, corr.flag_names(fv), gotm[:6], p, wantm[:6]),
                                 {'pattern': v, 'same_as': p, 'flags': corr.flag_names(fv), 'tree': sp})
+    return n
+
+
+def unclosed_group_paths(ctx):
+    """An extended group that is never closed is plain text: the separators after its `(` split the pattern into segments
+    for the walker exactly as they do for the matcher (also when a `[` stands between them).  Walk == REALPATH matcher
+    on a tree whose names contain such text.  Returns the number of evaluations."""
+    import trees
+    from wcmatch import glob as Gm
+    n = 0
+    spec = [('@(a', 'd', None), ('@(a/[b', 'f', None), ('@(a/b', 'f', None), ('+(x[y]', 'd', None), ('+(x[y]/z', 'f', None), ('+(xy', 'd', None), ('+(xy/z', 'f', None),
+            ('plain', 'f', None), ('!(q', 'd', None), ('!(q/[', 'f', None)]
+    with trees.Tree(spec) as T:
+        cands = sorted(T.entries())
+        for p in ('@(a/[b', '@(a/*', '@(a/[b]', '+(x[y]/z', '+(x[y]/*', '!(q/[', '*/[b', '@(a/[[]b', '?(a/[b', '@(a/[b|plain'):
+            for fv in (Gm.EXTGLOB, Gm.EXTGLOB | Gm.GLOBSTAR | Gm.SPLIT, Gm.EXTGLOB | Gm.DOTGLOB | Gm.MARK):
+                n += 1
+                try:
+                    got = sorted(x.rstrip('/') for x in Gm.glob(p, flags=fv, root_dir=T.root))
+                    want = [c for c in cands if Gm.globmatch(c, p, flags=fv | Gm.REALPATH, root_dir=T.root)]
+                except Exception as e:
+                    ctx.counterexample('glob / globmatch(%r, %s) raised %s' % (p, corr.flag_names(fv), type(e).__name__), {'pattern': p, 'flags': corr.flag_names(fv), 'tree': spec})
+                    continue
+                if got != want:
+                    ctx.counterexample('glob(%r, %s) = %r but globmatch(REALPATH) accepts %r (an unclosed group is plain text for the walker as for the matcher)' % (
+                        p, corr.flag_names(fv), got, want), {'pattern': p, 'flags': corr.flag_names(fv), 'tree': spec})
     return n
